@@ -353,6 +353,18 @@ func vpH_C04_internal_type_names() {
 	if !p && err == nil {
 		vpC04FollowUp("internal-type/"+name, it)
 	}
+	// the same documents through every JSON entry point of the vocabulary types (their own UnmarshalJSON
+	// keeps the Go type whatever the document's type member says)
+	e := vpChoice(len(vpDecodeEntries))
+	ename := vpDecodeEntries[e]
+	if !vpIsGobEntry(ename) {
+		var v any
+		p = vpMayPanic(func() { v, err = vpDecodeEntry(e, []byte(doc)) })
+		vpAssert("internal-type/no-panic/"+name+"/"+ename, !p)
+		if !p && err == nil {
+			vpC04FollowUp("internal-type/"+name+"/"+ename, v)
+		}
+	}
 	vpReach("end")
 }
 
